@@ -2,7 +2,8 @@
    (split / join / strip / count / startswith / find / rfind / slicing / list.index) and the decimal
    integer and decimal-fraction codecs (int(), float() on decimal texts; printing of integers and of
    fixed-point decimals), with their inverse lemmas.  General-purpose: nothing here is osu-specific. *)
-From Coq Require Import ZArith QArith Qround List Bool Lia String Ascii.
+From Coq Require Import String Ascii.
+From Coq Require Import ZArith QArith Qround List Bool Lia.
 Import ListNotations.
 Open Scope Z_scope.
 
@@ -145,14 +146,18 @@ Definition sum_nat (l : list nat) : nat := fold_right plus O l.
 
 (* occurrences of d in a c-joined text: those inside the pieces plus the separators when d = c *)
 Theorem count_join d c l :
-  count d (join c l) = (sum_nat (map (count d) l) + (if d =? c then pred (length l) else 0))%nat.
+  count d (join c l) = (sum_nat (map (count d) l) + (if (d =? c)%Z then pred (length l) else 0))%nat.
 Proof.
-  induction l as [|a l IH]; simpl; [destruct (d =? c); reflexivity|].
+  induction l as [|a l IH]; [simpl; destruct (d =? c); reflexivity|].
   destruct l as [|b l'].
   - simpl. destruct (d =? c); lia.
-  - change (join c (b :: l')) with (join c (b :: l')) in *.
-    rewrite count_app. simpl count at 2. rewrite (Z.eqb_sym c d).
-    rewrite IH. simpl length. simpl map. simpl sum_nat. destruct (d =? c); simpl; lia.
+  - change (join c (a :: b :: l')) with (a ++ c :: join c (b :: l')).
+    rewrite count_app. change (count d (c :: join c (b :: l'))) with (if c =? d then S (count d (join c (b :: l'))) else count d (join c (b :: l'))).
+    rewrite (Z.eqb_sym c d). rewrite IH.
+    change (map (count d) (a :: b :: l')) with (count d a :: map (count d) (b :: l')).
+    change (sum_nat (count d a :: map (count d) (b :: l'))) with (count d a + sum_nat (map (count d) (b :: l')))%nat.
+    change (length (a :: b :: l')) with (S (length (b :: l'))).
+    destruct (d =? c); simpl; lia.
 Qed.
 
 (* ---------------------------------------------------------------- strip *)
@@ -305,11 +310,6 @@ Definition show_int (z : Z) : text := if z <? 0 then 45 :: show_nat (- z) else s
 Lemma is_digit_of_mod n : is_digit (48 + n mod 10) = true.
 Proof. unfold is_digit. pose proof (Z.mod_pos_bound n 10 ltac:(lia)). apply andb_true_iff. split; apply Z.leb_le; lia. Qed.
 
-Lemma show_nat_go_val fuel : forall n acc a0,
-  0 <= n < 2 ^ Z.of_nat fuel ->
-  digits_val a0 (show_nat_go fuel n acc) = digits_val (a0 * 10 ^ 0 * 0 + (if (fuel =? 0)%nat then a0 else a0) * 0 + 0) [] -> True.
-Proof. auto. Qed.
-
 (* reading back the digits produced: the accumulator form used by all codec lemmas *)
 Lemma digits_val_show_go fuel : forall n acc,
   0 <= n < 2 ^ Z.of_nat fuel -> (fuel <> O) ->
@@ -356,10 +356,10 @@ Qed.
 (* every character of a printed natural is a digit *)
 Lemma show_nat_go_digits fuel : forall n acc, forallb is_digit acc = true -> forallb is_digit (show_nat_go fuel n acc) = true.
 Proof.
-  induction fuel as [|f IH]; intros n acc H; simpl; auto.
+  induction fuel as [|f IH]; intros n acc H; cbn [show_nat_go]; auto.
   destruct (n / 10 =? 0).
-  - simpl. rewrite is_digit_of_mod. exact H.
-  - apply IH. simpl. rewrite is_digit_of_mod. exact H.
+  - cbn [forallb]. rewrite is_digit_of_mod. exact H.
+  - apply IH. cbn [forallb]. rewrite is_digit_of_mod. exact H.
 Qed.
 Lemma show_nat_digits n : forallb is_digit (show_nat n) = true.
 Proof. unfold show_nat. destruct (n =? 0); [reflexivity|]. apply show_nat_go_digits. reflexivity. Qed.
